@@ -66,14 +66,17 @@ Section SymProofs.
     Definition Qall (u : mask) : img :=
       imdiv (mask_count u) (imadd (imadd (imadd (Q0 (u0 u)) (Q1 (u1 u))) (Q2 (u2 u))) (Q3 (u3 u))).
 
-    Lemma get_None u meth : meth <> OtherMethod ->
-      getq IM true ax_None u meth =
+    Lemma get_None u :
+      getq IM true ax_None u Average =
       if rejects ax_None u then ValueError else Ok (Q0 (u0 u), Q1 (u1 u), Q2 (u2 u), Q3 (u3 u)).
     Proof.
-      intros Hmeth. unfold get_quadrants. destruct shape_IM as [-> ->].
-      destruct (rejects ax_None u); [reflexivity|].
-      destruct meth; try congruence; reflexivity.
+      unfold get_quadrants. destruct shape_IM as [-> ->].
+      destruct (rejects ax_None u); reflexivity.
     Qed.
+
+    Lemma get_None_fourier :
+      getq IM true ax_None mask_all Fourier = Ok (Q0 true, Q1 true, Q2 true, Q3 true).
+    Proof. unfold get_quadrants. destruct shape_IM as [-> ->]. reflexivity. Qed.
 
     Lemma get_0 u :
       getq IM true ax_0 u Average =
@@ -130,8 +133,10 @@ Section SymProofs.
     (* ---- T1: split / join is lossless ------------------------------------- *)
     Lemma put_get_id meth : meth <> OtherMethod -> sym ax_None mask_all meth IM = Ok IM.
     Proof.
-      intros Hmeth. unfold symmetrize. rewrite (get_None mask_all Hmeth).
-      change (rejects ax_None mask_all) with false. cbv iota.
+      intros Hmeth. unfold symmetrize.
+      assert (G : getq IM true ax_None mask_all meth = Ok (Q0 true, Q1 true, Q2 true, Q3 true)).
+      { destruct meth; [rewrite get_None; reflexivity|apply get_None_fourier|congruence]. }
+      rewrite G.
       destruct shape_IM as [-> ->]. f_equal. cbn [u0 u1 u2 u3 mask_all].
       change (put_quadrants (Q0 true, Q1 true, Q2 true, Q3 true) n m ax_None)
         with (put_plain n m (Q0 true) (Q1 true) (Q2 true) (Q3 true)).
@@ -581,6 +586,279 @@ Section SymProofs.
         replace (m - ceil2 m + (j - m / 2)) with j by lia. apply f_equal2; [apply add_comm|reflexivity].
     Qed.
   End Fixed.
+
+  (* ---- the Fourier method (symmetry.py real_components) -------------------- *)
+  Section RawSym.
+    (* reassembling the quadrants of an image that is already symmetric, with the
+       copies put_image_quadrants makes for a symmetry axis, returns the image *)
+    Variables n m : nat.
+    Variable X : img.
+    Hypothesis HX : wf n m X.
+
+    Lemma raw_put_lr : lr_sym_px n m X ->
+      put_plain n m (Q1r zero n m X true) (Q1r zero n m X true)
+                    (Q2r zero n m X true) (Q2r zero n m X true) = X.
+    Proof.
+      intros Hs.
+      pose proof (wf_Q1r zero HX true) as W1. pose proof (wf_Q2r zero HX true) as W2.
+      apply img_ext with (zero:=zero) (n:=n) (m:=m); [apply wf_put_plain; assumption|exact HX|].
+      intros i j Hi Hj. rewrite (px_put_plain zero W1 W1 W2 W2 Hi Hj).
+      pose proof (ceil2_half n) as En. pose proof (ceil2_half m) as Em.
+      destruct (Nat.ltb_spec i (n / 2)), (Nat.ltb_spec j (m / 2)).
+      - rewrite (px_Q1r zero HX) by lia. f_equal. lia.
+      - rewrite (px_Q1r zero HX) by lia.
+        replace (ceil2 m - 1 - (j - m / 2)) with (m - 1 - j) by lia. apply Hs; lia.
+      - rewrite (px_Q2r zero HX) by lia. f_equal; lia.
+      - rewrite (px_Q2r zero HX) by lia.
+        replace (n - 1 - (n - 1 - i)) with i by lia.
+        replace (ceil2 m - 1 - (j - m / 2)) with (m - 1 - j) by lia. apply Hs; lia.
+    Qed.
+
+    Lemma raw_put_ud : ud_sym_px n m X ->
+      put_plain n m (Q0r zero n m X true) (Q1r zero n m X true)
+                    (Q1r zero n m X true) (Q0r zero n m X true) = X.
+    Proof.
+      intros Hs.
+      pose proof (wf_Q0r zero HX true) as W0. pose proof (wf_Q1r zero HX true) as W1.
+      apply img_ext with (zero:=zero) (n:=n) (m:=m); [apply wf_put_plain; assumption|exact HX|].
+      intros i j Hi Hj. rewrite (px_put_plain zero W0 W1 W1 W0 Hi Hj).
+      pose proof (ceil2_half n) as En. pose proof (ceil2_half m) as Em.
+      destruct (Nat.ltb_spec i (n / 2)), (Nat.ltb_spec j (m / 2)).
+      - rewrite (px_Q1r zero HX) by lia. f_equal. lia.
+      - rewrite (px_Q0r zero HX) by lia. f_equal. lia.
+      - rewrite (px_Q1r zero HX) by lia.
+        replace (ceil2 m - 1 - (ceil2 m - 1 - j)) with j by lia. apply Hs; lia.
+      - rewrite (px_Q0r zero HX) by lia.
+        replace (m - ceil2 m + (j - m / 2)) with j by lia. apply Hs; lia.
+    Qed.
+
+    Lemma raw_put_both : lr_sym_px n m X -> ud_sym_px n m X ->
+      put_plain n m (Q1r zero n m X true) (Q1r zero n m X true)
+                    (Q1r zero n m X true) (Q1r zero n m X true) = X.
+    Proof.
+      intros Hs1 Hs2.
+      pose proof (wf_Q1r zero HX true) as W1.
+      apply img_ext with (zero:=zero) (n:=n) (m:=m); [apply wf_put_plain; assumption|exact HX|].
+      intros i j Hi Hj. rewrite (px_put_plain zero W1 W1 W1 W1 Hi Hj).
+      pose proof (ceil2_half n) as En. pose proof (ceil2_half m) as Em.
+      destruct (Nat.ltb_spec i (n / 2)), (Nat.ltb_spec j (m / 2));
+        rewrite (px_Q1r zero HX) by lia.
+      - f_equal. lia.
+      - replace (ceil2 m - 1 - (j - m / 2)) with (m - 1 - j) by lia. apply Hs1; lia.
+      - replace (ceil2 m - 1 - (ceil2 m - 1 - j)) with j by lia. apply Hs2; lia.
+      - replace (ceil2 m - 1 - (j - m / 2)) with (m - 1 - j) by lia.
+        rewrite Hs2 by lia. apply Hs1; lia.
+    Qed.
+
+    Lemma flip_of_lr_sym : lr_sym_px n m X -> fliplr X = X.
+    Proof.
+      intros Hs. apply img_ext with (zero:=zero) (n:=n) (m:=m); [apply wf_fliplr; exact HX|exact HX|].
+      intros i j Hi Hj. rewrite px_fliplr with (n:=n) (m:=m); [|exact HX|exact Hi|exact Hj]. apply Hs; lia.
+    Qed.
+    Lemma flip_of_ud_sym : ud_sym_px n m X -> flipud X = X.
+    Proof.
+      intros Hs. apply img_ext with (zero:=zero) (n:=n) (m:=m); [apply wf_flipud; exact HX|exact HX|].
+      intros i j Hi Hj. rewrite px_flipud with (n:=n) (m:=m); [|exact HX|exact Hi]. apply Hs; lia.
+    Qed.
+  End RawSym.
+
+  Section FourierSec.
+    Variables n m : nat.
+    Variable IM : img.
+    Hypothesis HIM : wf n m IM.
+    Hypothesis Hn : 1 <= n.
+    Hypothesis Hm : 1 <= m.
+    Hypothesis add_comm : forall x y, add x y = add y x.
+
+    Notation flr := (fourier_lr add divn).
+    Notation fud := (fourier_ud add divn).
+
+    Lemma wf_flr (X : img) : wf n m X -> wf n m (flr X).
+    Proof. intros H. apply wf_imdiv, wf_imadd; [exact H|apply wf_fliplr; exact H]. Qed.
+    Lemma wf_fud (X : img) : wf n m X -> wf n m (fud X).
+    Proof. intros H. apply wf_imdiv, wf_imadd; [exact H|apply wf_flipud; exact H]. Qed.
+
+    Lemma px_flr (X : img) i j : wf n m X -> i < n -> j < m ->
+      px (flr X) i j = divn (add (px X i j) (px X i (m - 1 - j))) 2.
+    Proof.
+      intros H Hi Hj. unfold fourier_lr.
+      rewrite px_imdiv with (n:=n) (m:=m); [|apply wf_imadd; [exact H|apply wf_fliplr; exact H]|exact Hi|exact Hj].
+      rewrite px_imadd with (n:=n) (m:=m); [|exact H|apply wf_fliplr; exact H|exact Hi|exact Hj].
+      rewrite px_fliplr with (n:=n) (m:=m); [reflexivity|exact H|exact Hi|exact Hj].
+    Qed.
+    Lemma px_fud (X : img) i j : wf n m X -> i < n -> j < m ->
+      px (fud X) i j = divn (add (px X i j) (px X (n - 1 - i) j)) 2.
+    Proof.
+      intros H Hi Hj. unfold fourier_ud.
+      rewrite px_imdiv with (n:=n) (m:=m); [|apply wf_imadd; [exact H|apply wf_flipud; exact H]|exact Hi|exact Hj].
+      rewrite px_imadd with (n:=n) (m:=m); [|exact H|apply wf_flipud; exact H|exact Hi|exact Hj].
+      rewrite px_flipud with (n:=n) (m:=m); [reflexivity|exact H|exact Hi].
+    Qed.
+
+    Lemma flr_lr_sym (X : img) : wf n m X -> lr_sym_px n m (flr X).
+    Proof.
+      intros H i j Hi Hj. rewrite !px_flr by (try exact H; lia).
+      replace (m - 1 - (m - 1 - j)) with j by lia. f_equal. apply add_comm.
+    Qed.
+    Lemma fud_ud_sym (X : img) : wf n m X -> ud_sym_px n m (fud X).
+    Proof.
+      intros H i j Hi Hj. rewrite !px_fud by (try exact H; lia).
+      replace (n - 1 - (n - 1 - i)) with i by lia. f_equal. apply add_comm.
+    Qed.
+    Lemma fud_keeps_lr_sym (X : img) : wf n m X -> lr_sym_px n m X -> lr_sym_px n m (fud X).
+    Proof.
+      intros H Hs i j Hi Hj. rewrite !px_fud by (try exact H; lia).
+      rewrite !Hs by lia. reflexivity.
+    Qed.
+
+    (* the mask is reset to all-true for the Fourier method *)
+    Lemma fourier_mask u :
+      (if Nat.ltb (mask_count u) 4 then mask_all else u) = mask_all.
+    Proof. destruct u as [[] [] [] []]; reflexivity. Qed.
+
+    Lemma get_fourier_0 u : rejects ax_0 u = false ->
+      getq IM true ax_0 u Fourier =
+      Ok (Q0r zero n m (flr IM) true, Q1r zero n m (flr IM) true,
+          Q2r zero n m (flr IM) true, Q3r zero n m (flr IM) true).
+    Proof.
+      intros Hr. unfold get_quadrants. rewrite Hr.
+      destruct (shape_IM HIM Hn Hm) as [-> ->].
+      rewrite fourier_mask. reflexivity.
+    Qed.
+    Lemma get_fourier_1 u : rejects ax_1 u = false ->
+      getq IM true ax_1 u Fourier =
+      Ok (Q0r zero n m (fud IM) true, Q1r zero n m (fud IM) true,
+          Q2r zero n m (fud IM) true, Q3r zero n m (fud IM) true).
+    Proof.
+      intros Hr. unfold get_quadrants. rewrite Hr.
+      destruct (shape_IM HIM Hn Hm) as [-> ->].
+      rewrite fourier_mask. reflexivity.
+    Qed.
+    Lemma get_fourier_both a u : In a both_spellings -> rejects a u = false ->
+      getq IM true a u Fourier =
+      Ok (Q0r zero n m (fud (flr IM)) true, Q1r zero n m (fud (flr IM)) true,
+          Q2r zero n m (fud (flr IM)) true, Q3r zero n m (fud (flr IM)) true).
+    Proof.
+      intros Ha Hr. unfold get_quadrants. rewrite Hr.
+      destruct (shape_IM HIM Hn Hm) as [-> ->].
+      rewrite fourier_mask. destruct Ha as [<-|[<-|[<-|[]]]]; reflexivity.
+    Qed.
+
+    (* what the Fourier symmetrisation returns *)
+    Lemma sym_fourier_0 u : rejects ax_0 u = false -> sym ax_0 u Fourier IM = Ok (flr IM).
+    Proof.
+      intros Hr. unfold symmetrize. rewrite (get_fourier_0 u Hr).
+      destruct (shape_IM HIM Hn Hm) as [-> ->]. f_equal.
+      rewrite (put_ax0 n m). apply raw_put_lr; [apply wf_flr; exact HIM|apply flr_lr_sym; exact HIM].
+    Qed.
+    Lemma sym_fourier_1 u : rejects ax_1 u = false -> sym ax_1 u Fourier IM = Ok (fud IM).
+    Proof.
+      intros Hr. unfold symmetrize. rewrite (get_fourier_1 u Hr).
+      destruct (shape_IM HIM Hn Hm) as [-> ->]. f_equal.
+      rewrite (put_ax1 n m). apply raw_put_ud; [apply wf_fud; exact HIM|apply fud_ud_sym; exact HIM].
+    Qed.
+    Lemma sym_fourier_both a u : In a both_spellings -> rejects a u = false ->
+      sym a u Fourier IM = Ok (fud (flr IM)).
+    Proof.
+      intros Ha Hr. unfold symmetrize. rewrite (get_fourier_both u Ha Hr).
+      destruct (shape_IM HIM Hn Hm) as [-> ->]. f_equal.
+      rewrite (put_axboth n m _ _ _ _ Ha). apply raw_put_both.
+      - apply wf_fud, wf_flr; exact HIM.
+      - apply fud_keeps_lr_sym; [apply wf_flr; exact HIM|apply flr_lr_sym; exact HIM].
+      - apply fud_ud_sym. apply wf_flr; exact HIM.
+    Qed.
+
+    (* the Fourier method gives the same image as 'average' with all quadrants *)
+    Lemma fourier_eq_average_0 u : rejects ax_0 u = false ->
+      sym ax_0 u Fourier IM = sym ax_0 mask_all Average IM.
+    Proof. intros Hr. rewrite (sym_fourier_0 u Hr). symmetry. apply (sym_mean_0 HIM Hn Hm add_comm). Qed.
+    Lemma fourier_eq_average_1 u : rejects ax_1 u = false ->
+      sym ax_1 u Fourier IM = sym ax_1 mask_all Average IM.
+    Proof. intros Hr. rewrite (sym_fourier_1 u Hr). symmetry. apply (sym_mean_1 HIM Hn Hm add_comm). Qed.
+
+    (* mirror symmetry of the result *)
+    Lemma fourier_mirror_0 u S : sym ax_0 u Fourier IM = Ok S -> fliplr S = S.
+    Proof.
+      destruct (rejects ax_0 u) eqn:Hr.
+      - unfold symmetrize, get_quadrants. rewrite Hr. discriminate.
+      - rewrite (sym_fourier_0 u Hr). intros HS; apply Ok_inj in HS; subst S.
+        apply flip_of_lr_sym with (n:=n) (m:=m); [apply wf_flr; exact HIM|apply flr_lr_sym; exact HIM].
+    Qed.
+    Lemma fourier_mirror_1 u S : sym ax_1 u Fourier IM = Ok S -> flipud S = S.
+    Proof.
+      destruct (rejects ax_1 u) eqn:Hr.
+      - unfold symmetrize, get_quadrants. rewrite Hr. discriminate.
+      - rewrite (sym_fourier_1 u Hr). intros HS; apply Ok_inj in HS; subst S.
+        apply flip_of_ud_sym with (n:=n) (m:=m); [apply wf_fud; exact HIM|apply fud_ud_sym; exact HIM].
+    Qed.
+    Lemma fourier_mirror_both a u S : In a both_spellings ->
+      sym a u Fourier IM = Ok S -> fliplr S = S /\ flipud S = S.
+    Proof.
+      intros Ha. destruct (rejects a u) eqn:Hr.
+      - unfold symmetrize, get_quadrants. rewrite Hr. discriminate.
+      - rewrite (sym_fourier_both u Ha Hr). intros HS; apply Ok_inj in HS; subst S. split.
+        + apply flip_of_lr_sym with (n:=n) (m:=m); [apply wf_fud, wf_flr; exact HIM|].
+          apply fud_keeps_lr_sym; [apply wf_flr; exact HIM|apply flr_lr_sym; exact HIM].
+        + apply flip_of_ud_sym with (n:=n) (m:=m); [apply wf_fud, wf_flr; exact HIM|].
+          apply fud_ud_sym. apply wf_flr; exact HIM.
+    Qed.
+
+    (* an already symmetric image is left unchanged *)
+    Hypothesis LAWS : mean_laws.
+
+    Lemma flr_fix (X : img) : wf n m X -> lr_sym_px n m X -> flr X = X.
+    Proof.
+      intros H Hs. destruct LAWS as (_ & _ & _ & L2 & _).
+      apply img_ext with (zero:=zero) (n:=n) (m:=m); [apply wf_flr; exact H|exact H|].
+      intros i j Hi Hj. rewrite px_flr by assumption. rewrite Hs by lia. apply L2.
+    Qed.
+    Lemma fud_fix (X : img) : wf n m X -> ud_sym_px n m X -> fud X = X.
+    Proof.
+      intros H Hs. destruct LAWS as (_ & _ & _ & L2 & _).
+      apply img_ext with (zero:=zero) (n:=n) (m:=m); [apply wf_fud; exact H|exact H|].
+      intros i j Hi Hj. rewrite px_fud by assumption. rewrite Hs by lia. apply L2.
+    Qed.
+
+    Lemma fourier_fix_0 u : fliplr IM = IM -> rejects ax_0 u = false -> sym ax_0 u Fourier IM = Ok IM.
+    Proof.
+      intros Hs Hr. rewrite (sym_fourier_0 u Hr). f_equal.
+      apply flr_fix; [exact HIM|apply (lr_sym_of_flip HIM Hs)].
+    Qed.
+    Lemma fourier_fix_1 u : flipud IM = IM -> rejects ax_1 u = false -> sym ax_1 u Fourier IM = Ok IM.
+    Proof.
+      intros Hs Hr. rewrite (sym_fourier_1 u Hr). f_equal.
+      apply fud_fix; [exact HIM|apply (ud_sym_of_flip HIM Hs)].
+    Qed.
+    Lemma fourier_fix_both a u : In a both_spellings -> fliplr IM = IM -> flipud IM = IM ->
+      rejects a u = false -> sym a u Fourier IM = Ok IM.
+    Proof.
+      intros Ha Hs1 Hs2 Hr. rewrite (sym_fourier_both u Ha Hr). f_equal.
+      rewrite (flr_fix HIM (lr_sym_of_flip HIM Hs1)).
+      apply fud_fix; [exact HIM|apply (ud_sym_of_flip HIM Hs2)].
+    Qed.
+  End FourierSec.
+
+  (* idempotence of the Fourier method *)
+  Lemma fourier_idem n m (IM S : img) a u :
+    mean_laws -> (forall x y, add x y = add y x) -> wf n m IM -> 1 <= n -> 1 <= m ->
+    In a (ax_0 :: ax_1 :: both_spellings) ->
+    sym a u Fourier IM = Ok S -> sym a u Fourier S = Ok S.
+  Proof.
+    intros L C H Hn Hm Ha HS.
+    assert (Hr : rejects a u = false).
+    { destruct (rejects a u) eqn:E; [|reflexivity].
+      unfold symmetrize, get_quadrants in HS. rewrite E in HS. discriminate. }
+    destruct Ha as [<-|[<-|Ha]].
+    - pose proof (fourier_mirror_0 H Hn Hm C u HS) as M.
+      rewrite (sym_fourier_0 H Hn Hm C u Hr) in HS. apply Ok_inj in HS. subst S.
+      apply fourier_fix_0 with (n:=n) (m:=m); try assumption. apply wf_flr; exact H.
+    - pose proof (fourier_mirror_1 H Hn Hm C u HS) as M.
+      rewrite (sym_fourier_1 H Hn Hm C u Hr) in HS. apply Ok_inj in HS. subst S.
+      apply fourier_fix_1 with (n:=n) (m:=m); try assumption. apply wf_fud; exact H.
+    - destruct (fourier_mirror_both H Hn Hm C u Ha HS) as [M1 M2].
+      rewrite (sym_fourier_both H Hn Hm C u Ha Hr) in HS. apply Ok_inj in HS. subst S.
+      apply fourier_fix_both with (n:=n) (m:=m); try assumption. apply wf_fud, wf_flr; exact H.
+  Qed.
 
   (* ---- T4: idempotence ------------------------------------------------- *)
   Lemma sym_idem_0 n m (IM S : img) u :
